@@ -146,6 +146,35 @@ fn run_gen(bindir: &str, name: &str, args: &[String], stdin: Option<&[u8]>) -> R
     }
 }
 
+/// run a generator that writes to an OUTPUT file which already exists and is longer than the new output
+/// (regenerating into an old file); returns the file's content afterwards
+fn run_gen_to_file(bindir: &str, name: &str, args: &[String], out_flag: Option<&str>, stdin: Option<&[u8]>, input_file: Option<&[u8]>, tag: usize) -> Result<Vec<u8>, String> {
+    let dir = std::path::PathBuf::from(format!("/verif/_build/tmp/{}", std::process::id()));
+    let _ = std::fs::create_dir_all(&dir);
+    let outp = dir.join(format!("{name}_{tag}.out"));
+    let junk: String = "\"stale content of an earlier, larger run\" stale & stale2 &\n".repeat(4000);
+    std::fs::write(&outp, junk).map_err(|_| "(harness-io)".to_string())?;
+    let mut a: Vec<String> = args.to_vec();
+    let mut inp = None;
+    if let Some(content) = input_file {
+        let ip = dir.join(format!("{name}_{tag}.in"));
+        std::fs::write(&ip, content).map_err(|_| "(harness-io)".to_string())?;
+        a.push(ip.display().to_string());
+        inp = Some(ip);
+    }
+    if let Some(f) = out_flag {
+        a.push(f.to_string());
+    }
+    a.push(outp.display().to_string());
+    let r = run_gen(bindir, name, &a, stdin);
+    let content = std::fs::read(&outp).unwrap_or_default();
+    let _ = std::fs::remove_file(&outp);
+    if let Some(ip) = inp {
+        let _ = std::fs::remove_file(ip);
+    }
+    r.map(|_| content)
+}
+
 // ---------------------------------------------------------------------------------------------- queens
 
 pub fn real_queens(bindir: &str, n: usize) -> String {
@@ -218,6 +247,10 @@ pub fn real_sudoku(bindir: &str, r: usize, puzzle: &str) -> String {
 
 /// vertex names are given by index; `names[i]` is how vertex i is spelled in the csv
 pub fn real_clique(bindir: &str, names: &[String], edges: &[(usize, usize)], u: bool, all: bool, models: bool) -> (String, Vec<usize>) {
+    real_clique_x(bindir, names, edges, u, all, models, None)
+}
+
+pub fn real_clique_x(bindir: &str, names: &[String], edges: &[(usize, usize)], u: bool, all: bool, models: bool, to_file: Option<usize>) -> (String, Vec<usize>) {
     let mut csv = String::new();
     for (a, b) in edges {
         csv.push_str(&format!("{},{}\n", names[*a], names[*b]));
@@ -229,7 +262,11 @@ pub fn real_clique(bindir: &str, names: &[String], edges: &[(usize, usize)], u: 
     if all {
         args.push("-a".into());
     }
-    let out = match run_gen(bindir, "max_clique_gen", &args, Some(csv.as_bytes())) {
+    let res = match to_file {
+        Some(tag) => run_gen_to_file(bindir, "max_clique_gen", &args, None, None, Some(csv.as_bytes()), tag),
+        None => run_gen(bindir, "max_clique_gen", &args, Some(csv.as_bytes())),
+    };
+    let out = match res {
         Err(e) => return (e, vec![]),
         Ok(o) => o,
     };
@@ -351,6 +388,18 @@ pub fn main(out: &mut Out, o: &Opts) {
                 for (n, r) in small.iter().zip(res.iter()) {
                     out.emit("queensmodels", &Sx::l(vec![Sx::n(n)]).show(), r);
                 }
+                // the OUTPUT-file path of the generator, regenerating into an existing longer file
+                let filed: Vec<usize> = vec![1, 2, 4, 6];
+                let res = par_map(&filed, |n| match run_gen_to_file(&bindir, "n_queens_gen", &["-n".into(), n.to_string()], None, None, None, *n) {
+                    Err(e) => e,
+                    Ok(outp) => canon_output(&outp, &|name: &str| match name.strip_prefix("v_").and_then(|k| k.parse::<u64>().ok()) {
+                        Some(k) => k.to_string(),
+                        None => format!("?{name}"),
+                    }),
+                });
+                for (n, r) in filed.iter().zip(res.iter()) {
+                    out.emit("queens", &Sx::l(vec![Sx::n(n), Sx::a("to-file")]).show(), r);
+                }
                 let big: Vec<usize> = if o.thorough { vec![100, 255, 256, 257, 300, 400] } else { vec![255, 256, 300] };
                 let res = par_map(&big, |n| real_queensbig(&bindir, *n));
                 for (n, r) in big.iter().zip(res.iter()) {
@@ -414,6 +463,25 @@ pub fn main(out: &mut Out, o: &Opts) {
                 for ((r, t), res) in cases.iter().zip(res.iter()) {
                     out.emit("sudoku", &Sx::l(vec![Sx::n(r), sudoku_text_sx(t)]).show(), res);
                 }
+                // INPUT and OUTPUT given as files, OUTPUT existing and longer
+                let filed: Vec<(usize, (usize, String))> = cases.iter().cloned().enumerate().filter(|(i, _)| i % 25 == 0).collect();
+                let res = par_map(&filed, |(i, (r, t))| {
+                    match run_gen_to_file(&bindir, "sudoku_gen", &["-r".into(), r.to_string()], None, None, Some(t.as_bytes()), *i) {
+                        Err(e) => e,
+                        Ok(outp) => canon_output(&outp, &|name: &str| {
+                            let parts: Vec<&str> = name.split('_').collect();
+                            if parts.len() == 4 && parts[0].is_empty() && parts[2] == "is" {
+                                if let (Ok(c), Ok(d)) = (parts[1].parse::<u64>(), parts[3].parse::<u64>()) {
+                                    return format!("({c} {d})");
+                                }
+                            }
+                            format!("?{name}")
+                        }),
+                    }
+                });
+                for ((_, (r, t)), res) in filed.iter().zip(res.iter()) {
+                    out.emit("sudoku", &Sx::l(vec![Sx::n(r), sudoku_text_sx(t), Sx::a("to-file")]).show(), res);
+                }
             }
             "clique" => {
                 let plain: Vec<String> = ["a", "b", "c", "d", "e", "f", "g"].iter().map(|s| s.to_string()).collect();
@@ -451,6 +519,20 @@ pub fn main(out: &mut Out, o: &Opts) {
                     }
                     let names = if k % 3 == 0 { tricky.clone() } else { plain.clone() };
                     cases.push((names, e, rng.chance(1, 2), rng.chance(1, 3)));
+                }
+                {
+                    // INPUT and OUTPUT as files, OUTPUT existing and longer
+                    let sel: Vec<(usize, &(Vec<String>, Vec<(usize, usize)>, bool, bool))> = cases.iter().enumerate().filter(|(i, _)| i % 40 == 0).collect();
+                    let res = par_map(&sel, |(i, (names, e, u, all))| {
+                        let (r, order) = real_clique_x(&bindir, names, e, *u, *all, false, Some(*i));
+                        format!("{}\u{1}{}", r, order.iter().map(|i| i.to_string()).collect::<Vec<_>>().join(" "))
+                    });
+                    for ((_, (names, e, u, all)), r) in sel.iter().zip(res.iter()) {
+                        let (res, order) = r.split_once('\u{1}').unwrap_or((r.as_str(), ""));
+                        let order_sx = Sx::l(order.split_whitespace().map(Sx::a).collect());
+                        let args = Sx::l(vec![Sx::l(vec![Sx::n(*u as u8), Sx::n(*all as u8)]), order_sx, edges_sx(e), Sx::l(names.iter().map(Sx::a).collect()), Sx::a("to-file")]);
+                        out.emit("clique", &args.show(), res);
+                    }
                 }
                 for models in [false, true] {
                     // the second pass solves the real output with the real library, on graphs with <= 4 vertices
@@ -530,14 +612,22 @@ pub fn main(out: &mut Out, o: &Opts) {
                 }
                 // --convert and --colors on small edge lists (vertices v<i>)
                 let nconv = if o.thorough { 5_000 } else { 400 };
-                let mut inputs: Vec<(Vec<(usize, usize)>, bool, Option<usize>)> = vec![];
+                // vertex i is spelled pools[pool][i]; the model works on the indices
+                let pools: Vec<Vec<&str>> = vec![
+                    vec!["v0", "v1", "v2", "v3", "v4", "v5"],
+                    vec!["v1", "v10", "v2", "v20", "v3", "v30"],
+                    vec!["a", "ab", "a_c1", "b", "b_", "_"],
+                ];
+                let mut inputs: Vec<(Vec<(usize, usize)>, bool, Option<usize>, usize)> = vec![];
                 for mask in 1u32..64 {
                     let pairs = [(0, 1), (1, 0), (0, 2), (2, 0), (1, 2), (2, 1)];
                     let e: Vec<(usize, usize)> = (0..6).filter(|i| mask >> i & 1 == 1).map(|i| pairs[i]).collect();
-                    inputs.push((e.clone(), false, None));
-                    inputs.push((e.clone(), true, None));
-                    for k in 1..=3 {
-                        inputs.push((e.clone(), true, Some(k)));
+                    for pool in 0..pools.len() {
+                        inputs.push((e.clone(), false, None, pool));
+                        inputs.push((e.clone(), true, None, pool));
+                        for k in 1..=3 {
+                            inputs.push((e.clone(), true, Some(k), pool));
+                        }
                     }
                 }
                 for _ in 0..nconv {
@@ -548,15 +638,17 @@ pub fn main(out: &mut Out, o: &Opts) {
                         continue;
                     }
                     let k = if rng.chance(1, 2) { Some(1 + rng.below(3) as usize) } else { None };
-                    inputs.push((e, rng.chance(1, 2), k));
+                    inputs.push((e, rng.chance(1, 2), k, rng.below(pools.len() as u64) as usize));
                 }
                 let dir = std::path::PathBuf::from(format!("/verif/_build/tmp/{}", std::process::id()));
                 let _ = std::fs::create_dir_all(&dir);
                 let idx: Vec<usize> = (0..inputs.len()).collect();
                 let res = par_map(&idx, |i| {
-                    let (e, u, k) = &inputs[*i];
+                    let (e, u, k, pool) = &inputs[*i];
+                    let names = &pools[*pool];
+                    let vid = |s: &str| names.iter().position(|n| *n == s);
                     let path = dir.join(format!("g{i}.csv"));
-                    let csv: String = e.iter().map(|(a, b)| format!("v{a},v{b}\n")).collect();
+                    let csv: String = e.iter().map(|(a, b)| format!("{},{}\n", names[*a], names[*b])).collect();
                     let _ = std::fs::write(&path, csv);
                     let mut args: Vec<String> = vec!["--convert".into(), path.display().to_string()];
                     if *u {
@@ -566,7 +658,12 @@ pub fn main(out: &mut Out, o: &Opts) {
                         args.push("--colors".into());
                         args.push(k.to_string());
                     }
-                    let r = run_gen(&bindir, "random_graph_gen", &args, None);
+                    let r = if i % 7 == 0 {
+                        // the -o path, into an existing longer file
+                        run_gen_to_file(&bindir, "random_graph_gen", &args, Some("-o"), None, None, *i)
+                    } else {
+                        run_gen(&bindir, "random_graph_gen", &args, None)
+                    };
                     let _ = std::fs::remove_file(&path);
                     match r {
                         Err(x) => x,
@@ -574,10 +671,10 @@ pub fn main(out: &mut Out, o: &Opts) {
                             None => "(unparsable)".into(),
                             Some(es) => {
                                 if k.is_some() {
-                                    // vertices are v<i>_c<k>: unordered pairs, sorted
+                                    // vertices are <name>_c<k>: unordered pairs, sorted
                                     let dec = |s: &str| -> Option<String> {
                                         let (v, c) = s.rsplit_once("_c")?;
-                                        Some(format!("({} {})", v.strip_prefix('v')?.parse::<usize>().ok()?, c.parse::<usize>().ok()?))
+                                        Some(format!("({} {})", vid(v)?, c.parse::<usize>().ok()?))
                                     };
                                     let mut ps = vec![];
                                     for (a, b) in &es {
@@ -596,7 +693,7 @@ pub fn main(out: &mut Out, o: &Opts) {
                                 } else {
                                     let mut v2 = vec![];
                                     for (a, b) in es {
-                                        match (a.strip_prefix('v').and_then(|x| x.parse::<usize>().ok()), b.strip_prefix('v').and_then(|x| x.parse::<usize>().ok())) {
+                                        match (vid(&a), vid(&b)) {
                                             (Some(x), Some(y)) => v2.push((x, y)),
                                             _ => return "(unparsable)".into(),
                                         }
@@ -607,13 +704,11 @@ pub fn main(out: &mut Out, o: &Opts) {
                         },
                     }
                 });
-                for ((e, u, k), r) in inputs.iter().zip(res.iter()) {
+                for ((e, u, k, pool), r) in inputs.iter().zip(res.iter()) {
+                    let names = Sx::l(pools[*pool].iter().map(|n| Sx::a(*n)).collect()).show();
                     match k {
-                        Some(k) => {
-                            // the colour graph is built from the (possibly merged) converted list
-                            out.emit("colors", &format!("({} {} {})", k, *u as u8, edges_sx(e).show()), r)
-                        }
-                        None => out.emit("convert", &format!("({} {})", *u as u8, edges_sx(e).show()), r),
+                        Some(k) => out.emit("colors", &format!("({} {} {} {})", k, *u as u8, edges_sx(e).show(), names), r),
+                        None => out.emit("convert", &format!("({} {} {})", *u as u8, edges_sx(e).show(), names), r),
                     }
                 }
                 let _ = std::fs::remove_dir_all(&dir);
